@@ -45,8 +45,12 @@ pub struct Keys {
     pub keeper: Pubkey,
     pub approver1: Pubkey,
     pub approver2: Pubkey,
+    /// holds the timelocked form of ROLE2 only
+    pub approver3: Pubkey,
     pub stranger: Pubkey,
     pub executor: Pubkey,
+    /// executor of ROLE2 (no buffer is ever created for it)
+    pub executor2: Pubkey,
     pub wallet: Pubkey,
     pub config: Pubkey,
     pub x: Pubkey,
@@ -56,6 +60,8 @@ pub struct Keys {
 
 pub const ROLE: &str = "MARKET_KEEPER";
 pub const TLD_ROLE: &str = "__TLD_MARKET_KEEPER";
+pub const ROLE2: &str = "ORDER_KEEPER";
+pub const TLD_ROLE2: &str = "__TLD_ORDER_KEEPER";
 pub const DELAY0: u32 = 100;
 
 /// Base database: programs registered, store fabricated with `Store::init` + real role functions,
@@ -72,7 +78,7 @@ pub fn base() -> (Db, Keys) {
     let mut sysacc = Acc::program();
     sysacc.owner = Pubkey::default();
     db.set(sys(), sysacc);
-    let names = ["tl-admin", "tl-keeper", "tl-approver1", "tl-approver2", "tl-stranger"];
+    let names = ["tl-admin", "tl-keeper", "tl-approver1", "tl-approver2", "tl-stranger", "tl-approver3"];
     let k: Vec<Pubkey> = names.iter().map(|n| addr(n)).collect();
     for w in &k {
         db.set(*w, Acc::wallet(100_000_000_000));
@@ -80,7 +86,7 @@ pub fn base() -> (Db, Keys) {
     let (store_key, bump) = Pubkey::find_program_address(&[Store::SEED, &gmsol_utils::to_seed("")], &pid);
     let mut store: Store = bytemuck::Zeroable::zeroed();
     store.init(k[0], "", bump, k[0], k[0]).expect("store init");
-    for (role, who) in [("TIMELOCK_ADMIN", k[0]), ("TIMELOCK_KEEPER", k[1]), (TLD_ROLE, k[2]), (TLD_ROLE, k[3])] {
+    for (role, who) in [("TIMELOCK_ADMIN", k[0]), ("TIMELOCK_KEEPER", k[1]), (TLD_ROLE, k[2]), (TLD_ROLE, k[3]), (TLD_ROLE2, k[5])] {
         if store.role().role_index(role).ok().flatten().is_none() {
             store.enable_role(role).expect("enable");
         }
@@ -91,8 +97,10 @@ pub fn base() -> (Db, Keys) {
     let executor = Pubkey::find_program_address(&[Executor::SEED, store_key.as_ref(), &role_bytes], &tid).0;
     let wallet = Pubkey::find_program_address(&[Executor::WALLET_SEED, executor.as_ref()], &tid).0;
     let config = Pubkey::find_program_address(&[TimelockConfig::SEED, store_key.as_ref()], &tid).0;
+    let role2_bytes = gmsol_utils::fixed_str::fixed_str_to_bytes::<32>(ROLE2).unwrap();
+    let executor2 = Pubkey::find_program_address(&[Executor::SEED, store_key.as_ref(), &role2_bytes], &tid).0;
     let keys = Keys {
-        pid, tid, probe, store: store_key, admin: k[0], keeper: k[1], approver1: k[2], approver2: k[3], stranger: k[4], executor, wallet, config,
+        pid, tid, probe, store: store_key, admin: k[0], keeper: k[1], approver1: k[2], approver2: k[3], approver3: k[5], stranger: k[4], executor, executor2, wallet, config,
         x: addr("tl-x"), y: addr("tl-y"), buffers: [addr("tl-buffer-0"), addr("tl-buffer-1")],
     };
     (db, keys)
@@ -136,6 +144,7 @@ pub fn c35_executor(name: &str, sink: &mut e1::Sink) {
 fn world() -> (Db, Keys) {
     let (mut db, k) = base();
     process(&mut db, &ix_initialize_executor(&k, k.keeper, ROLE), &[k.keeper]).expect("initialize_executor");
+    process(&mut db, &ix_initialize_executor(&k, k.keeper, ROLE2), &[k.keeper]).expect("initialize_executor 2");
     let (cfg_key, cfg_bump) = Pubkey::find_program_address(&[TimelockConfig::SEED, k.store.as_ref()], &k.tid);
     let mut cfg = vec![0u8; 8 + std::mem::size_of::<TimelockConfig>()];
     cfg[..8].copy_from_slice(TimelockConfig::DISCRIMINATOR);
@@ -170,6 +179,7 @@ enum Who {
     Keeper,
     Approver1,
     Approver2,
+    Approver3,
     Stranger,
 }
 
@@ -177,6 +187,8 @@ enum Who {
 enum Act {
     Create(usize, u8, Who),
     Approve(usize, Who),
+    /// batched approval (approve_instructions) of one buffer, authenticating for ROLE (false) or ROLE2 (true)
+    ApproveBatch(usize, Who, bool),
     Cancel(usize, Who),
     Execute(usize, Who),
     IncreaseDelay(u32, Who),
@@ -218,6 +230,7 @@ impl Tl {
             Who::Keeper => self.k.keeper,
             Who::Approver1 => self.k.approver1,
             Who::Approver2 => self.k.approver2,
+            Who::Approver3 => self.k.approver3,
             Who::Stranger => self.k.stranger,
         }
     }
@@ -234,6 +247,13 @@ impl Tl {
     fn approve_ix(&self, slot: usize, by: Pubkey) -> Instruction {
         let k = &self.k;
         Instruction { program_id: k.tid, accounts: gmsol_timelock::accounts::ApproveInstruction { authority: by, store: k.store, executor: k.executor, instruction: k.buffers[slot], store_program: k.pid }.to_account_metas(None), data: gmsol_timelock::instruction::ApproveInstruction { role: ROLE.into() }.data() }
+    }
+    fn approve_batch_ix(&self, slot: usize, by: Pubkey, second_role: bool) -> Instruction {
+        let k = &self.k;
+        let (executor, role) = if second_role { (k.executor2, ROLE2) } else { (k.executor, ROLE) };
+        let mut metas = gmsol_timelock::accounts::ApproveInstructions { authority: by, store: k.store, executor, store_program: k.pid }.to_account_metas(None);
+        metas.push(meta(k.buffers[slot], false, true));
+        Instruction { program_id: k.tid, accounts: metas, data: gmsol_timelock::instruction::ApproveInstructions { role: role.into() }.data() }
     }
     fn cancel_ix(&self, slot: usize, by: Pubkey) -> Instruction {
         let k = &self.k;
@@ -282,6 +302,11 @@ impl Machine for Tl {
                 let ok = matches!(s.bufs[slot], Buf::Pending { .. }) && self.holds_tld(s, by);
                 (Some(self.approve_ix(slot, self.key_of(by))), vec![self.key_of(by)], ok)
             }
+            Act::ApproveBatch(slot, by, second_role) => {
+                // every buffer belongs to the executor of ROLE: a batch authenticated for ROLE2 must not approve it, whoever signs
+                let ok = matches!(s.bufs[slot], Buf::Pending { .. }) && !second_role && self.holds_tld(s, by);
+                (Some(self.approve_batch_ix(slot, self.key_of(by), second_role)), vec![self.key_of(by)], ok)
+            }
             Act::Cancel(slot, by) => {
                 let ok = exists(s.bufs[slot]) && by == Who::Admin;
                 (Some(self.cancel_ix(slot, self.key_of(by))), vec![self.key_of(by)], ok)
@@ -315,6 +340,8 @@ impl Machine for Tl {
                 let key = match (a, r.is_ok()) {
                     (Act::Execute(..), true) => "C36/executed_without_valid_approval_or_delay",
                     (Act::Approve(..), true) => "C36/approved_twice_or_by_non_holder",
+                    (Act::ApproveBatch(_, _, false), true) => "C36/approved_twice_or_by_non_holder",
+                    (Act::ApproveBatch(_, _, true), true) => "C36/approved_under_another_role",
                     (Act::Create(..), true) => "C36/created_invalid_buffer",
                     (Act::Cancel(..), true) => "C36/cancelled_by_non_admin",
                     (Act::IncreaseDelay(..), true) => "C36/delay_changed_by_non_admin",
@@ -326,7 +353,7 @@ impl Machine for Tl {
             if r.is_ok() {
                 match *a {
                     Act::Create(slot, sh, _) => n.bufs[slot] = Buf::Pending { shape: sh },
-                    Act::Approve(slot, by) => {
+                    Act::Approve(slot, by) | Act::ApproveBatch(slot, by, _) => {
                         if let Buf::Pending { shape } = s.bufs[slot] {
                             n.bufs[slot] = Buf::Approved { shape, at: s.now, by };
                         }
@@ -401,7 +428,7 @@ impl Machine for Tl {
 
 pub fn run_c36(cli: &Cli) -> Report {
     let mut rep = Report::new(cli, "model_checking");
-    rep.rule("E3: breadth-first exploration of every interleaving of real timelock instructions (create_instruction_buffer with valid and invalid shapes, approve_instruction, cancel_instruction, execute_instruction, increase_delay — each by entitled and non-entitled signers), role revocation/re-grant and disabling of the timelocked role in the store, and clock advances {1, 50, 99} around the delay; every instruction runs through gmsol_timelock::entry with its role checks CPI-ing into gmsol_store::entry; the target of the buffered instruction is a recording probe program; success/failure of every instruction is compared with a reference protocol and an executed instruction with the buffered shape bit for bit");
+    rep.rule("E3: breadth-first exploration of every interleaving of real timelock instructions (create_instruction_buffer with valid and invalid shapes, approve_instruction, approve_instructions (batched, also authenticated for a second role whose executor owns no buffer), cancel_instruction, execute_instruction, increase_delay — each by entitled and non-entitled signers), role revocation/re-grant and disabling of the timelocked role in the store, and clock advances {1, 50, 99} around the delay; every instruction runs through gmsol_timelock::entry with its role checks CPI-ing into gmsol_store::entry; the target of the buffered instruction is a recording probe program; success/failure of every instruction is compared with a reference protocol and an executed instruction with the buffered shape bit for bit");
     rep.assume("svm-lite runtime (account records, PDA signing, CPI privilege checks, atomic commit) is trusted; the timelock config account is fabricated with delay 100 (initialize_config additionally transfers the store authority and is not part of the property)");
     let th = cli.tier.thorough();
     let (db, k) = world();
@@ -417,6 +444,9 @@ pub fn run_c36(cli: &Cli) -> Report {
         Act::Approve(1, Approver1),
         Act::Approve(0, Stranger),
         Act::Approve(1, Keeper),
+        Act::ApproveBatch(0, Approver2, false),
+        Act::ApproveBatch(0, Approver3, true),
+        Act::ApproveBatch(1, Approver3, false),
         Act::Cancel(0, Admin),
         Act::Cancel(1, Admin),
         Act::Cancel(0, Keeper),
